@@ -658,6 +658,8 @@ func runC19(c *Ctx, r *Report) {
 		r.check(okEl, fmt.Sprintf("%s:append to suffix list #%d", relName(rf), na), st.Pos(), rf, "a suffix-matched skip entry begins with the path separator", why)
 	}
 	r.floor("appends to the suffix skip list", na, 2)
+	r.rule("C19-R4", "B", "P1", "the walker's callbacks run concurrently: the streaming filter they feed uses its slab only under its mutex (same obligations as C05-R1)", "walker + --filter --no-sort: matches lost or a crash")
+	oneSlabPerWorker(c, r)
 }
 
 // ------------------------------------------------------------------------------------------ C20
@@ -839,6 +841,9 @@ func runC20(c *Ctx, r *Report) {
 		}
 	}
 	r.floor("initialisations of Terminal.killChan", nk, 1)
+
+	c20round2(c, r)
+	c14round2(c, r) // SIGKILL to the group, exit wait covers the watcher's delay
 
 	// ---------------- R6 ----------------
 	r.rule("C20-R6", "E (sibling agreement)", "P1",
